@@ -126,6 +126,10 @@ func ExportPrivateKey(keyPath string, passphrase []byte) ([]byte, error) {
 
 	// Derive decryption key
 	var derivedKey []byte
+	if len(data.Salt) == 0 && len(passphrase) == 0 {
+		// the salt-less format has no key for an empty passphrase
+		return nil, fmt.Errorf("failed to decrypt private key (wrong passphrase): empty passphrase for a key file without salt")
+	}
 	if len(data.Salt) == 0 {
 		derivedKey = fallbackDeriveKey(passphrase, 32)
 	} else {
@@ -335,6 +339,10 @@ func (s *FileSystemSigner) loadKeys(passphrase []byte) error {
 
 	// If there's no salt in the file, fallback to older naive deriveKey (for backward-compatibility)
 	var derivedKey []byte
+	if len(data.Salt) == 0 && len(passphrase) == 0 {
+		// the salt-less format has no key for an empty passphrase
+		return fmt.Errorf("failed to decrypt private key (wrong passphrase?): empty passphrase for a key file without salt")
+	}
 	if len(data.Salt) == 0 {
 		// fallback to naive approach
 		derivedKey = fallbackDeriveKey(passphrase, 32)
